@@ -32,6 +32,13 @@ class Unsupported(BaseException):
     """an operation on a shadow value that the engine does not model"""
 
 
+class Deadline(BaseException):
+    """the obligation's wall budget is used up (raised at a safe point: a branch)"""
+
+
+DEADLINE = [None]   # absolute time.time() after which branch()/concretize() raise Deadline
+
+
 class Stats:
     def __init__(self):
         self.checks = 0
@@ -156,6 +163,8 @@ class Engine:
             return True
         if z3.is_false(cond):
             return False
+        if DEADLINE[0] is not None and time.time() > DEADLINE[0]:
+            raise Deadline()
         if self.pos < len(self.decisions):
             kind, _, d, dg = self.decisions[self.pos]
             self.pos += 1
@@ -886,6 +895,9 @@ class Exploration:
             except PathAbort:
                 self.aborted += 1
                 continue
+            except Deadline:
+                self.inconclusive.append(f"wall budget exhausted after {self.paths} paths")
+                return
             except SolverUnknown as e:
                 res = ("unknown", e)
                 self.inconclusive.append("branch solver unknown")
